@@ -3,6 +3,8 @@
 //
 //	vh-accounts replay  <behaviours.ndjson>    behaviours of Accounts.tla -> real AccountsDB
 //	vh-accounts replay8 <behaviours.ndjson>    behaviours of DataTrie.tla -> real TrackableDataTrie through AccountsDB
+//	vh-accounts record <seed> <traces> <calls> <out.ndjson>   random histories on the real AccountsDB -> trace for TLC
+//	vh-accounts record8 <seed> <traces> <calls> <out.ndjson>  random caller slices on the real TrackableDataTrie -> trace
 //	vh-accounts limits8 <behaviours.ndjson> <tier>   value sizes around the leaf-size limit
 package main
 
@@ -11,6 +13,7 @@ import (
 	"os"
 	"runtime/debug"
 	"runtime/pprof"
+	"strconv"
 
 	"verif/harness/internal/vtrace"
 )
@@ -32,6 +35,16 @@ func main() {
 		replayAccounts(os.Args[2])
 	case "replay8":
 		replayStorage(os.Args[2])
+	case "record":
+		seed, _ := strconv.ParseInt(os.Args[2], 10, 64)
+		traces, _ := strconv.Atoi(os.Args[3])
+		n, _ := strconv.Atoi(os.Args[4])
+		recordAccounts(seed, traces, n, os.Args[5])
+	case "record8":
+		seed, _ := strconv.ParseInt(os.Args[2], 10, 64)
+		traces, _ := strconv.Atoi(os.Args[3])
+		n, _ := strconv.Atoi(os.Args[4])
+		recordStorage(seed, traces, n, os.Args[5])
 	case "limits8":
 		limitsStorage(os.Args[2], os.Args[3])
 	default:
